@@ -4,6 +4,7 @@ import random
 from .. import common as C
 from .. import core
 from .. import world as W
+from .. import xpy
 
 ID = 'C05'
 TIERS = {'quick': {'seeds': 15000, 'seconds': 45, 'determinism': 48},
@@ -14,6 +15,10 @@ RULE = ('seeded worlds (layer DAG <= 5, <= 12 tests, every outcome kind via inje
         'are checked by the bracket automaton. distinct = digest of per-pid hook-site sequence + '
         'fired faults + option keys; non-trivial = at least one fault fired or a decorator/skip '
         'outcome occurred or children ran')
+RULE += (' Cross-version tier (directed specs): the same world and plan also run as REAL processes '
+         'under every other supported CPython found on the machine (3.9, 3.10, 3.11, 3.13; unittest '
+         'differs between them exactly where the runner hooks in), the same bracket automaton '
+         'judges their traces.')
 ASSUMPTIONS = ['no faults are injected into testSetUp/testTearDown themselves (an exception there '
                'aborts the run by design; that is C18 territory)']
 
@@ -42,6 +47,18 @@ def gen(seed):
         opt['pm'] = True
     return {'property': ID, 'seed': seed, 'world': world, 'plan': plan, 'opt': opt,
             'sched': {'prng': seed}, 'knobs': {}}
+
+
+def directed(tier, base_seed):
+    """Cross-version specs: skip/subtest/expected-failure heavy worlds, sequential and -j."""
+    out = []
+    n = 20 if tier == 'quick' else 400
+    for k in range(n):
+        spec = gen(7700000 + base_seed * 1009 + k)
+        spec['opt'].pop('pm', None)          # (a real -D run would wait for a terminal)
+        spec['xpy'] = True
+        out.append(spec)
+    return out
 
 
 def check_brackets_pm(m, res):
@@ -203,11 +220,26 @@ def run(spec, ctx):
     viols, st = check_brackets(m, res)
     check_model(m, res)
     fired = C.fired_kinds(res.trace)
+    xprobes = {}
+    if spec.get('xpy'):
+        for ver, py in xpy.interpreters():
+            real = xpy.execute(spec, W.argv(spec['opt'], src), ctx.scratch, py)
+            if real is None:
+                xprobes['xpy_unavailable'] = xprobes.get('xpy_unavailable', 0) + 1
+                continue
+            xprobes['xpy_runs_py' + ver] = 1
+            xv, xst = check_brackets(m, real)
+            xprobes['xpy_test_occurrences'] = xprobes.get('xpy_test_occurrences', 0) + xst['occ']
+            if real.raised and not xv:
+                xprobes['xpy_run_aborted'] = xprobes.get('xpy_run_aborted', 0) + 1
+            for v in xv:
+                viols.append(C.viol(v['sig'] + '/py' + ver, 'under CPython %s (real processes): %s'
+                                    % (ver, v['msg'])))
     out = {'violations': viols, 'digest': core.digest_of(res, ctx.norm),
            'shape': C.shape_of(spec, [res]),
            'nontrivial': bool(fired) or st['deco_skip'] > 0 or res.sched['spawned'] > 0,
            'faults': fired, 'probes': dict(res.sched['probes'], test_occurrences=st['occ'],
-                                           deco_skip_occurrences=st['deco_skip']),
+                                           deco_skip_occurrences=st['deco_skip'], **xprobes),
            'modes': ['-j' if spec['opt'].get('j') else 'sequential'],
            'steps': res.sched['steps'], 'simtime': res.sched['simtime'], 'execs': 1}
     if res.raised and not viols:
